@@ -10,7 +10,8 @@
 (*   entry  [cps, feats, ds, kids, conj, ign, fmt, id]                     *)
 (*          cps   \subseteq code point atoms       ({} = wildcard)         *)
 (*          feats \subseteq feature atoms          ({} = wildcard)         *)
-(*          ds    \subseteq segments <<lo, hi>> on one axis ({} = wildcard)*)
+(*          ds    \subseteq segments <<lo, hi>> (first axis) or             *)
+(*                <<lo, hi, axis>>                       ({} = wildcard)   *)
 (*          kids  \subseteq indices of earlier entries; conj = match all   *)
 (*          ign   the entry's ignored / applied bit                        *)
 (*          fmt   "full" | "part" (table keyed) | "glyph" (glyph keyed)    *)
@@ -29,7 +30,10 @@ TableOf(font, n) == IF n = "ift" THEN font.ift ELSE font.iftx
 
 -----------------------------------------------------------------------------
 (* Check entry intersection *)
-SegOverlap(x, y) == x[1] <= y[2] /\ y[1] <= x[2]              \* inclusive end points
+Ax(x) == IF Len(x) = 3 THEN x[3] ELSE 0
+\* segments meet when they lie on the same axis and overlap (inclusive end points); an entry with segments matches a
+\* definition as soon as ONE axis named by both has overlapping segments (axes named by one side only do not count)
+SegOverlap(x, y) == Ax(x) = Ax(y) /\ x[1] <= y[2] /\ y[1] <= x[2]
 
 CpI(e, d) == e.cps = {} \/ e.cps \cap d.cps # {}
 FtI(e, d) == IF d.fall THEN TRUE ELSE e.feats = {} \/ e.feats \cap d.feats # {}
@@ -53,13 +57,14 @@ OfferedUris(font, d) == {Uri(font.ift, i) : i \in Offered(font.ift, d)} \cup {Ur
 \* definitions ordered by inclusion
 DefLeq(d1, d2) == /\ d1.cps \subseteq d2.cps
                   /\ (d2.fall \/ (~d1.fall /\ d1.feats \subseteq d2.feats))
-                  /\ (d2.dall \/ (~d1.dall /\ \A x \in d1.ds : \E y \in d2.ds : y[1] <= x[1] /\ x[2] <= y[2]))
+                  /\ (d2.dall \/ (~d1.dall /\ \A x \in d1.ds : \E y \in d2.ds : Ax(x) = Ax(y) /\ y[1] <= x[1] /\ x[2] <= y[2]))
 
 -----------------------------------------------------------------------------
 (* Intersection size of an invalidating candidate (IntersectionInfo)        *)
 FeatCount(e, d) == IF d.fall THEN Cardinality(e.feats) ELSE Cardinality(e.feats \cap d.feats)
 \* total length of (union of entry segments) /\ (union of definition segments): unit cells
-Cells(S) == {k \in 0..63 : \E x \in S : x[1] <= k /\ k + 1 <= x[2]}
+\* (intersection sizes are modelled on the first axis only: invalidating entries of the families carry no other)
+Cells(S) == {k \in 0..63 : \E x \in S : Ax(x) = 0 /\ x[1] <= k /\ k + 1 <= x[2]}
 DsKey(e, d) ==
   IF d.dall THEN (IF e.ds = {} THEN <<0, 0>> ELSE <<1, Cardinality(Cells(e.ds))>>)
   ELSE IF \E x \in e.ds, y \in d.ds : SegOverlap(x, y)
